@@ -241,6 +241,29 @@ impl Expression for DelFn {
             state.external = false_result.merge(true_result);
         }
 
+        // Deleting from a local variable changes it as well: it is no longer the constant it
+        // may have been assigned, and the deleted path no longer has its previous type.
+        if let Some(ident) = self.query.variable_ident()
+            && let Some(details) = state.local.variable(ident).cloned()
+        {
+            let removed = |compact: bool| {
+                let mut type_def = details.type_def.clone();
+                type_def.remove(self.query.path(), compact);
+                type_def
+            };
+            let type_def = match compact {
+                Some(compact) => removed(compact),
+                None => removed(false).union(removed(true)),
+            };
+            state.local.insert_variable(
+                ident.clone(),
+                crate::compiler::type_def::Details {
+                    type_def,
+                    value: None,
+                },
+            );
+        }
+
         TypeInfo::new(state, return_type)
     }
 }
